@@ -58,6 +58,8 @@ pub enum Step {
     Expire(u8),
     /// from now on tower t holds every reply (good or bad) back for this many 100 ms: requests are in flight when other things happen
     Slow(u8, u8),
+    /// the next registration tower t answers does not extend the subscription (the client refuses such a renewal for good)
+    RenewalNotExtending(u8),
 }
 
 #[derive(Debug, Clone, Serialize, Deserialize)]
@@ -66,6 +68,10 @@ pub struct Case {
     pub max_retry_time: u8,
     pub auto_retry_delay: u8,
     pub steps: Vec<Step>,
+    /// slots a registration buys at the towers (0 = plenty): with 1 or 2 the subscription runs out of slots after an
+    /// acknowledgement or two and the client has to renew by itself to get the next appointment through
+    #[serde(default)]
+    pub grant: u8,
 }
 
 fn v(sig: &str, msg: String) -> Violation {
@@ -271,10 +277,11 @@ impl Campaign for C13 {
                     1 => Just(Step::Restart),
                     2 => (0..towers).prop_map(Step::Expire),
                     3 => (0..towers, 0u8..12).prop_map(|(t, d)| Step::Slow(t, d)),
+                    1 => (0..towers).prop_map(Step::RenewalNotExtending),
                 ];
                 // every history opens with an outage and a revocation, so that there is something to retry
                 let slow_mode = prop_oneof![Just(Mode::Reset), Just(Mode::Garbage), Just(Mode::BadGateway), Just(Mode::Subscription), Just(Mode::MalformedSig)];
-                ((0..towers), proptest::collection::vec(step, 1..8), 0u8..5, slow_mode, 8u8..11, 4u8..15, 2u8..13, 0u8..4).prop_map(move |(t0, mut steps, opening, m, sd, w1, w2, recover_now)| {
+                ((0..towers), proptest::collection::vec(step, 1..8), 0u8..5, slow_mode, 8u8..11, 4u8..15, 2u8..13, 0u8..4, prop_oneof![3 => Just(0u8), 1 => Just(1u8), 1 => Just(2u8)]).prop_map(move |(t0, mut steps, opening, m, sd, w1, w2, recover_now, grant)| {
                     let mut t = t;
                     let mut s = if opening == 0 {
                         // one history in five: a slow tower failing with an answer (requests are in flight for most of the
@@ -295,7 +302,7 @@ impl Campaign for C13 {
                     };
                     // (the generated mode of a later Fail step replaces this one)
                     s.append(&mut steps);
-                    Case { towers, max_retry_time: t, auto_retry_delay: d, steps: s }
+                    Case { towers, max_retry_time: t, auto_retry_delay: d, steps: s, grant }
                 })
             })
             .boxed()
@@ -332,6 +339,11 @@ fn run_once(case: &Case, w: usize) -> (CaseReport, bool) {
     let dir = crate::world::scratch_dir(&format!("c13-{w}"));
     let _ = std::fs::remove_dir_all(&dir);
     let towers: Vec<FakeTower> = (0..case.towers).map(|i| FakeTower::start(port_for(w, i as usize), i)).collect();
+    if case.grant > 0 {
+        for t in &towers {
+            t.small_subscriptions(case.grant as u32);
+        }
+    }
     let opts = PluginOpts { max_retry_time: case.max_retry_time as u32, auto_retry_delay: case.auto_retry_delay as u32, max_retry_interval: 1 };
     let track = (0..case.towers).map(|_| TowerTrack { failing_since: None, mode: None, samples: vec![], manual_or_restart: vec![], rejected: BTreeSet::new() }).collect();
     let mut run = Run { p: None, dir: dir.clone(), opts, towers, track, answered: BTreeSet::new(), old_logs: vec![], violations: vec![], timing: false, classes: BTreeSet::new(), harness_trouble: false };
@@ -410,6 +422,10 @@ fn run_once(case: &Case, w: usize) -> (CaseReport, bool) {
                 run.towers[*t as usize].expire_subscription();
                 let st = run.retrier_state(*t as usize);
                 run.classes.insert(format!("subscription-expires-while-retrier-{st}"));
+            }
+            Step::RenewalNotExtending(t) => {
+                run.towers[*t as usize].script("/register", vec![Behaviour::NotExtending(0)]);
+                run.classes.insert("renewal-refused-once".into());
             }
             Step::Slow(t, d) => {
                 run.towers[*t as usize].set_delay(*d as u64 * 100);
@@ -495,7 +511,8 @@ fn run_once(case: &Case, w: usize) -> (CaseReport, bool) {
                     // (from the first moment something was pending)
                     let seen: Vec<&(Instant, String, usize)> = run.track[t].samples.iter().filter(|s| s.0 > from).skip_while(|s| s.2 == 0).collect();
                     let pending_all_along = seen.iter().all(|s| s.2 > 0);
-                    let unreachable_seen = seen.iter().any(|s| s.1 == "unreachable");
+                    // (a tower whose subscription cannot be renewed ends up in `subscription_error`, the other state that waits for the user)
+                    let unreachable_seen = seen.iter().any(|s| s.1 == "unreachable" || s.1 == "subscription_error");
                     if pending_all_along && !unreachable_seen && run.violations.is_empty() {
                         let statuses: Vec<String> = seen.iter().map(|s| s.1.clone()).collect::<BTreeSet<_>>().into_iter().collect();
                         run.violations.push(v("never-shown-unreachable", format!("tower {} kept failing ({:?}) for {:.1} s with data pending (max-retry-time {} s) but was never shown unreachable; statuses seen: {statuses:?}", &run.towers[t].id_hex()[..8], run.track[t].mode, from.elapsed().as_secs_f64(), run.opts.max_retry_time)));
@@ -520,12 +537,18 @@ fn run_once(case: &Case, w: usize) -> (CaseReport, bool) {
     if run.violations.is_empty() && !run.harness_trouble {
         for t in 0..case.towers as usize {
             run.towers[t].set_default("/add_appointment", Behaviour::Accept);
+            run.towers[t].clear_scripts();
             run.towers[t].set_delay(0);
             run.towers[t].set_up(true);
             run.track[t].failing_since = None;
         }
         let recovered = Instant::now();
-        let bound = run.bound();
+        // a tower that sells `grant` slots per registration takes `grant` appointments per renewal, and a renewal may cost a
+        // whole retry cycle (subscription error -> back-off -> give up when max-retry-time is short): one bound per renewal needed
+        run.sample();
+        let most_pending = (0..case.towers as usize).map(|t| run.track[t].samples.last().map_or(0, |s| s.2)).max().unwrap_or(0);
+        let renewals = if case.grant > 0 { ((most_pending + case.grant as usize - 1) / case.grant as usize).max(1) } else { 1 };
+        let bound = run.bound() * renewals as f64;
         let mut done = false;
         while recovered.elapsed().as_secs_f64() < bound && run.violations.is_empty() {
             run.sample();
@@ -534,6 +557,36 @@ fn run_once(case: &Case, w: usize) -> (CaseReport, bool) {
                 break;
             }
             std::thread::sleep(Duration::from_millis(150));
+        }
+        // A renewal whose receipt does not extend the subscription is refused by the client for good: the tower is left in
+        // `subscription_error` with its data, and delivery needs the user (documented). Then the manual retry must be accepted
+        // and must deliver.
+        if !done && run.violations.is_empty() {
+            let stuck: Vec<usize> = (0..case.towers as usize)
+                .filter(|t| run.track[*t].samples.last().map_or(false, |s| s.1 == "subscription_error" && s.2 > 0) && run.towers[*t].served().iter().any(|s| s.path == "/register" && matches!(s.behaviour, Behaviour::NotExtending(_))))
+                .collect();
+            if !stuck.is_empty() {
+                for t in &stuck {
+                    let tid = run.towers[*t].id_hex();
+                    if let Some(p) = run.p.as_mut() {
+                        match p.call("retrytower", json!([tid]), Duration::from_secs(15)) {
+                            Ok(_) => {
+                                run.classes.insert("manual-retry-after-a-refused-renewal".into());
+                            }
+                            Err(e) => run.violations.push(v("manual-retry-refused-when-subscription-error", format!("tower {} is shown subscription_error with data pending (a renewal had been refused), yet retrytower answers {e:?}", &tid[..8]))),
+                        }
+                    }
+                }
+                let again = Instant::now();
+                while again.elapsed().as_secs_f64() < bound && run.violations.is_empty() {
+                    run.sample();
+                    if (0..case.towers as usize).all(|t| run.track[t].samples.last().map_or(false, |s| s.1 == "reachable" && s.2 == 0)) {
+                        done = true;
+                        break;
+                    }
+                    std::thread::sleep(Duration::from_millis(150));
+                }
+            }
         }
         if !done && run.violations.is_empty() {
             let what: Vec<String> = (0..case.towers as usize).map(|t| run.track[t].samples.last().map_or("?".into(), |s| format!("{} pending {}", s.1, s.2))).collect();
@@ -644,7 +697,7 @@ pub fn run(ctx: &Ctx) -> i32 {
     stats.merge(regress);
     let mut ev = Evidence::default();
     ev.level = "exploration".into();
-    ev.rule = "one case = a fresh real watchtower-client process with generated watchtower-max-retry-time (1-3 s) and watchtower-auto-retry-delay (2-4 s), 1-2 scripted towers, and 3-9 steps: revocations, a tower starting to fail in one of 7 ways (refused, reset, non-JSON 200, 502 page, wrong-shape JSON, undecodable signature, subscription error), one-off rejections, subscriptions running out (appointments refused with the subscription error until the client re-registers by itself), slow towers (every reply held back 0-1.1 s), recoveries, waits of 0.1-10 s (so that events land while the retrier is stopped, running, idle, waking), retrytower, SIGKILL + restart. Oracles: (1) after every tower recovered, within max-retry-time + auto-retry-delay + 3 manager polls + 3 s every tower is shown reachable with nothing pending and every answered revocation has a receipt (or is invalid because that tower rejected it); (2) per process log, 'Retrying tower X' never appears twice without 'Retry strategy succeeded|gave up for X' in between; (3) failed attempts of one retry loop number at most 2 + max-retry-time/0.25; no tower sees more than 12 failing requests in a second; a loop does not outlive max-retry-time by more than 1.5 intervals + slack; an idle retrier is not restarted before auto-retry-delay unless retrytower/restart asked; (4) a tower that keeps failing with data pending through a full cycle is shown unreachable at some sample and still lists the data; (5) retrytower is refused when the tower is shown reachable / temporary_unreachable / misbehaving before and after the call, accepted when unreachable before and after. Bounds on real time must fail again in a solo re-run (all other workers paused) to count. Non-trivial = a recovery, a full failing cycle or a manual retry happened; distinct = distinct class sets.".into();
+    ev.rule = "one case = a fresh real watchtower-client process with generated watchtower-max-retry-time (1-3 s) and watchtower-auto-retry-delay (2-4 s), 1-2 scripted towers, and 3-9 steps: revocations, a tower starting to fail in one of 7 ways (refused, reset, non-JSON 200, 502 page, wrong-shape JSON, undecodable signature, subscription error), one-off rejections, towers whose registrations buy only 1 or 2 slots (two histories in five), subscriptions running out (appointments refused with the subscription error until the client re-registers by itself), slow towers (every reply held back 0-1.1 s), recoveries, waits of 0.1-10 s (so that events land while the retrier is stopped, running, idle, waking), retrytower, SIGKILL + restart. Oracles: (1) after every tower recovered, within max-retry-time + auto-retry-delay + 3 manager polls + 3 s every tower is shown reachable with nothing pending and every answered revocation has a receipt (or is invalid because that tower rejected it); (2) per process log, 'Retrying tower X' never appears twice without 'Retry strategy succeeded|gave up for X' in between; (3) failed attempts of one retry loop number at most 2 + max-retry-time/0.25; no tower sees more than 12 failing requests in a second; a loop does not outlive max-retry-time by more than 1.5 intervals + slack; an idle retrier is not restarted before auto-retry-delay unless retrytower/restart asked; (4) a tower that keeps failing with data pending through a full cycle is shown unreachable at some sample and still lists the data; a tower whose renewal the client refused (non-extending receipt) may stay in subscription_error, but then retrytower must be accepted and deliver within the same bound; (5) retrytower is refused when the tower is shown reachable / temporary_unreachable / misbehaving before and after the call, accepted when unreachable before and after. Bounds on real time must fail again in a solo re-run (all other workers paused) to count. Non-trivial = a recovery, a full failing cycle or a manual retry happened; distinct = distinct class sets.".into();
     ev.assumptions = vec!["real time: bounds = configured delays + 3 polls of the retry manager + 3 s slack; a miss counts only if it reproduces with nothing else running".into(), "the client's info/warn log lines ('Retrying tower', 'Retry strategy succeeded/gave up', 'Retry error happened') are the observation point for retrier lifetimes".into(), "permanently failing subscriptions (non-extending renewals) and misbehaving towers are C14's subject and are not generated here".into()];
     ev.extra.insert("regression_cases_replayed".into(), json!(replayed));
     runner::conclude(ctx, "C13", stats, ev, started)
